@@ -181,7 +181,9 @@ class C12:
             'when all numbers are ints, in an IntColumn, each in up to 4 row orders (as generated, reversed, sorted, '
             'shuffled); all lists of length <= 2 (thorough: <= 3) over a 7-value alphabet; arithmetic progressions '
             'and constant lists whose standard deviation is an exactly representable rational; a stream with '
-            'infinities (outside the quantifier: only unique/count are judged). All seven statistics + unique + count '
+            'infinities (outside the quantifier: only unique/count are judged); columns whose statistics are read, which are '
+            'then modified through int / slice / index-list / selection / row / whole-column assignment (1-3 edits, '
+            'statistics read before each) and read again (must describe the current cells). All seven statistics + unique + count '
             'are read for every case. non-trivial = at least two numbers or at least one ignored cell; distinct by '
             '(kind, stored cells)')
     trusted_base = [
@@ -214,15 +216,36 @@ class C12:
     ]
 
     # ---- implementation runner ------------------------------------------
-    def _observe(self, kind, vals):
+    def _observe(self, kind, vals, edits=()):
         from datamatrix import DataMatrix
         with warnings.catch_warnings():
             warnings.simplefilter('ignore')
             dm = DataMatrix(length=len(vals))
+            dm.k = list(range(len(vals)))
             dm.c = coltype(kind)
             if vals:
                 dm.c = list(vals)
             col = dm.c
+            for path, where, v in edits:
+                # the statistics are read before every modification: they must describe the CURRENT cells afterwards
+                for s in STATS:
+                    float(getattr(col, ATTR[s]))
+                col.unique, col.count
+                if path == 'int':
+                    col[where] = v
+                elif path == 'slice':
+                    col[where[0]:where[1]] = v
+                elif path == 'list':
+                    col[list(where)] = v
+                elif path == 'sel':
+                    col[dm.k >= where] = v
+                elif path == 'row':
+                    dm[where].c = v
+                elif path == 'whole':
+                    dm.c = [v] * len(vals)
+                    col = dm.c
+                else:
+                    raise AssertionError(path)
             cells = [plain(x) for x in col]
             obs = {}
             for s in STATS:
@@ -234,12 +257,16 @@ class C12:
     def rerun(self, inp):
         kind = inp['kind']
         vals = dec_list(inp['vals'])
+        edits = [(e[0], e[1], pyobs.dec(e[2])) for e in inp.get('edits', [])]
         try:
-            cells, obs, u, cnt = self._observe(kind, vals)
-        except (TypeError, ValueError, OverflowError):
+            cells, obs, u, cnt = self._observe(kind, vals, edits)
+        except Exception as e:      # noqa: BLE001  -- the generator only builds admissible columns
             if inp.get('may_reject'):
                 return None
-            raise
+            return {'input': {k: v for k, v in inp.items() if k != 'may_reject'}, 'observed': {'exception': repr(e)},
+                    'pyfail': 'reading the statistics of an admissible column raised %r' % (e,),
+                    'oracle': 'true', 'model': 'true', 'nontrivial': True,
+                    'sig': 'exc|%s|%r' % (kind, inp['vals']), 'tags': list(inp.get('tags', [])) + [kind, 'raised']}
         scope = not any(type(c) is float and math.isinf(c) for c in cells)
         l0 = nums_l0(cells)
         l1 = nums_l1(kind, cells)
@@ -287,7 +314,8 @@ class C12:
         if n_exact:
             tags.append('some-exact')
         return {
-            'input': {'kind': kind, 'vals': inp['vals'], 'tags': inp.get('tags', [])},
+            'input': dict({'kind': kind, 'vals': inp['vals'], 'tags': inp.get('tags', [])},
+                          **({'edits': inp['edits']} if inp.get('edits') else {})),
             'observed': {'cells': enc_list(cells), 'stats': {ATTR[s]: obs[s].hex() for s in STATS},
                          'unique': enc_list(u), 'count': cnt, 'py_verdict': verdict},
             'pyfail': '; '.join(pyfail) if pyfail else None,
@@ -295,7 +323,7 @@ class C12:
             'model': 'model_agrees %s %s %s %s %s' % (kind, cl, L.lst(m_items), ul, L.z(cnt)),
             'aux': 'in_scope %s' % cl,
             'nontrivial': len(l0) >= 2 or n_junk > 0,
-            'sig': '%s|%r' % (kind, cells),
+            'sig': '%s|%r|%r' % (kind, cells, [(e[0], e[1]) for e in inp.get('edits', [])]),
             'tags': tags,
         }
 
@@ -420,6 +448,37 @@ class C12:
             add('KFloat', vals, ['exact-std'])
             if all(type(v) is int for v in vals):
                 add('KInt', vals, ['exact-std'])
+        # 5. statistics read, column modified through each write path, statistics read again
+        for _ in range(120 if quick else 1200):
+            base = self.numbers(rng, 8)
+            if len(base) < 2:
+                continue
+            kind = rng.choice(KINDS)
+            if kind == 'KInt':
+                base = [int(v) if abs(v) < 2 ** 58 else 7 for v in base]
+            elif rng.random() < 0.5:
+                base.insert(rng.randrange(len(base) + 1), self.junk(rng, kind))
+            n = len(base)
+            edits = []
+            for _e in range(rng.choice([1, 1, 2, 3])):
+                path = rng.choice(['int', 'slice', 'list', 'list', 'sel', 'sel', 'row', 'whole'])
+                v = rng.choice([0, 1000, -3, rng.randint(-50, 50)] + ([] if kind == 'KInt' else [2.5, float('nan'), None, 'zz']))
+                if path in ('int', 'row'):
+                    where = rng.randrange(n)
+                elif path == 'slice':
+                    a = rng.randrange(n)
+                    where = [a, rng.randint(a + 1, n)]
+                elif path == 'list':
+                    where = sorted(rng.sample(range(n), rng.randint(1, min(3, n))))
+                elif path == 'sel':
+                    where = rng.randrange(n)
+                else:
+                    where = 0
+                edits.append([path, where, pyobs.enc(v)])
+            c = self.rerun({'kind': kind, 'vals': enc_list(base), 'edits': edits, 'tags': ['edited']})
+            if c is not None and c['sig'] not in seen:
+                seen.add(c['sig'])
+                cases.append(c)
         # 4. outside the quantifier: infinities
         for _ in range(30 if quick else 300):
             base = self.numbers(rng, 6)
@@ -455,6 +514,17 @@ class C12:
     def shrink_candidates(self, inp):
         vals = inp['vals']
         base = {'kind': inp['kind'], 'tags': inp.get('tags', []), 'may_reject': True}
+        if inp.get('edits'):
+            ed = inp['edits']
+            for i in range(len(ed)):
+                yield dict(base, vals=vals, edits=ed[:i] + ed[i + 1:])
+            for i, e in enumerate(ed):
+                if pyobs.dec(e[2]) != 1000:
+                    yield dict(base, vals=vals, edits=ed[:i] + [[e[0], e[1], pyobs.enc(1000)]] + ed[i + 1:])
+            for i, v in enumerate(vals):
+                if pyobs.dec(v) != 1:
+                    yield dict(base, vals=vals[:i] + [pyobs.enc(1)] + vals[i + 1:], edits=ed)
+            return
         for i in range(len(vals)):
             yield dict(base, vals=vals[:i] + vals[i + 1:])
         for i, v in enumerate(vals):
@@ -469,8 +539,11 @@ class C12:
     def key(self, case):
         o = case.get('observed') or {}
         cells = [d.get('v', d['t']) for d in o.get('cells', [])]
-        return 'stats kind=%s cells=%s failing=%s' % (case['input']['kind'], ','.join(map(str, cells)),
-                                                      ','.join(o.get('py_verdict', [])) or 'unique/count/coq-side')
+        ed = case['input'].get('edits')
+        return 'stats kind=%s cells=%s%s failing=%s' % (
+            case['input']['kind'], ','.join(map(str, cells)),
+            (' after-edits=' + ';'.join(e[0] for e in ed)) if ed else '',
+            ','.join(o.get('py_verdict', [])) or 'unique/count/coq-side')
 
 
 PROP = C12()
